@@ -188,6 +188,12 @@ impl Tree {
 		self.core.inner.active_memtable.try_write().is_ok()
 	}
 
+	/// Whether no flush of an immutable memtable is in progress right now (the flush lock
+	/// could be taken - also false when the calling thread holds it further up its stack).
+	pub fn verif_flush_lock_free(&self) -> bool {
+		self.core.inner.flush_lock.try_lock().is_ok()
+	}
+
 	/// The visibility horizon.
 	pub fn verif_visible_seq(&self) -> u64 {
 		self.core.seq_num()
